@@ -125,6 +125,14 @@ class PredExpensive(Predicate):
         return body((self.p0, self.p1))
 
 
+def _fn_var_keyword(p0, **more):
+    """the second parameter arrives through **more (key p1)"""
+    p1 = more.get("p1", DEFAULT)
+    LOG.append((p0, p1))
+    return body((p0, p1))
+
+
+TARGETS[("fnvarkw", 2, True)] = Target("fnvarkw", symbolic_function(_fn_var_keyword), 2, True, (0, 1))
 TARGETS[("predexpensive", 2, False)] = Target("predexpensive", PredExpensive, 2, False, (0, 1))
 
 
@@ -133,6 +141,12 @@ def shapes(t: Target):
     for omit in ((False, True) if t.with_default else (False,)):
         n_given = t.arity - (1 if omit else 0)
         for kinds in itertools.product("XYCA", repeat=n_given):
+            if t.what == "fnvarkw":
+                # the parameter collected by **more can only be written as a keyword
+                if "Y" in kinds and "X" not in kinds:
+                    continue
+                yield kinds, min(1, n_given), omit
+                continue
             if "Y" in kinds and "X" not in kinds:
                 continue  # symmetric to X
             if "A" in kinds and (t.arity > 2 and not t.with_default):
@@ -174,7 +188,7 @@ def harness(t: Target, kinds, npos, omit, N):
 
         if not symbolic:
             # concrete call: runs at once, plain result
-            if t.what == "fn":
+            if t.what.startswith("fn"):
                 v["concrete-runs-once"] = len(LOG) == 1
                 v["concrete-result"] = IFF(r, body(expected_args(None, None))) if not isinstance(r, SymbolicExpression) else False
             else:
